@@ -14,8 +14,8 @@ CHECKS = {
             "Bounded proof over exact real arithmetic: h = dC/dv, pdf = dh/du (own symbolic differentiator on the traced CDF term), ranges, symmetry and log-density are z3 'unsat' for all theta in range and all (u,v) in the open unit square; 2-row batches enumerated.",
             'Differentiator validated on the repository numeric vectors; rectangle-integral clause follows by FTC, not decided.'),
     'C08': ('proof', 'symbolic execution of the real percent_point + SMT; brentq as contract stub',
-            "Clayton: h(ppf(y,v),v)=y, range and monotonicity are z3 'unsat' for all theta>0, y,v in (0,1). Frank/Gumbel: the function, bracket and lane alignment handed to brentq are decided symbolically; brentq itself is its documented contract.",
-            'brentq convergence and the lower-end bracket sign (quantitative) are outside the claim.'),
+            "Clayton: h(ppf(y,v),v)=y, range and monotonicity are z3 'unsat' for all theta>0, y,v in (0,1). Frank/Gumbel: the function, bracket and lane alignment handed to brentq are decided symbolically, the bracket [EPSILON,1] is used only after the code's own sign test and the widened bracket [tiny,1] is shown to have a sign change for |tau|<=0.8, y,v in [1e-4,1-1e-4] by lemma chains; brentq itself is its documented contract (default tolerances, iteration budget and convergence check required). Independence family included.",
+            'brentq convergence is outside the claim; the quantitative bracket bound holds inside the stated (theta, y, v) box only.'),
     'C09': ('model_checking', 'symbolic execution under a symbolic RNG model + SMT on every path',
             'All paths of the real sample(n), n<=2 (3 thorough): the exact transformation of the two uniform draws (guard, request order, lane alignment, range) is decided; statistical clauses are not claimed.',
             'RNG model and brentq contract are the trusted base; every distributional clause is outside the claim.'),
@@ -23,7 +23,7 @@ CHECKS = {
             'Every feasible path of the real Bivariate.fit on symbolic (n,2) data, n<=3 (4 thorough), with kendalltau/least_squares/quad as contract stubs: acceptance, refusal reasons, tau wiring and the tau-theta relations are z3 queries on each path.',
             'scipy kendalltau/least_squares/quad are contracts; Frank root-finding accuracy outside the claim.'),
     'C18': ('model_checking', 'exhaustive symbolic path enumeration with maxiter=k + SMT per path',
-            'Every feasible path of the real bisect/chandrupatla for symbolic brackets and an uninterpreted monotone f, lanes<=2, maxiter<=3: containment, bracketing, halving / termination meaning, rejection of invalid brackets, lane non-interference and scalar/vector agreement are z3 queries on each path.',
+            'Every feasible path of the real bisect/chandrupatla for symbolic brackets and an uninterpreted monotone f, lanes<=2, maxiter<=3: containment, the maintained bracket (result = smaller-|f| end of an adjacent sign-changing pair of evaluated points), halving / termination meaning, rejection of invalid brackets, lane non-interference and scalar/vector agreement are z3 queries on each path.',
             'f monotone between evaluated points; the interpolation parameter t is abstracted to its clamp range; convergence within 50 iterations for arbitrary f is outside the claim.'),
 }
 
@@ -50,10 +50,10 @@ CHECKS.update({
             'Every path of the real set_random_state/random_state/validate_random_state and of each sampler wrapper (scipy-backed, KDE, selecting wrapper, bivariate, Gaussian multivariate incl. conditional, vine, dataset generators) for <=3 calls over <=2 models: global state restored (also on raise), stream advance, twin equality, non-interference, unseeded behaviour, seed types.',
             'RNG model (state token, injective next-state, stream rank) is the trusted base; MT19937 bit-level behaviour outside the claim.'),
     'C16': ('model_checking', 'exhaustive symbolic path enumeration over tau order types + graph predicates + SMT',
-            'Every feasible path (every order type of the pairwise taus, ties included) of the real vine construction for d<=4 (5 thorough), three vine types, all truncations: tree counts, spanning trees, proximity, conditioned/conditioning sets, no repeated pair, star/path shape, maximum-spanning-tree optimality of the first regular tree (z3 query per path), no exception.',
-            'select_copula / kendalltau / h-functions are stubs; d=6,7 not enumerated.'),
+            'Every feasible path (every order type of the pairwise taus, ties included) of the real vine construction for d<=4 (thorough: + d=5 center/direct, d=6 center/direct; regular d>=5 is not exhaustible), three vine types, all truncations: tree counts, spanning trees, proximity, conditioned/conditioning sets, no repeated pair, star/path shape, maximum-spanning-tree optimality of the first regular tree (z3 query per path), no exception.',
+            'select_copula / kendalltau / h-functions are stubs; regular vines with d>=5 and d=7 are covered by concrete witness tables only.'),
     'C17': ('model_checking', 'symbolic execution with labelled stub pair copulas; textbook h-recursion as oracle',
-            'All structures for d<=4: each edge copula = select_copula of F(a|D),F(b|D); attached pseudo-observations = [F(a|D+b), F(b|D+a)], moved strictly inside (0,1); get_likelihood = sum of log pair densities at the h-propagated arguments with no uninitialised reads; sample schema and per-column quantile wiring.',
+            'All structures for d<=4: each edge copula = select_copula of F(a|D),F(b|D); attached pseudo-observations = [F(a|D+b), F(b|D+a)], moved strictly inside (0,1); get_likelihood = sum of log pair densities at the h-propagated arguments (truncation 1, d-1 and none) with no uninitialised reads; sample schema, per-column quantile wiring, only the model's own pair copulas are evaluated, 2-column conditional inverse at two different draws.',
             'Pair-copula numerics are C06-C08; the two-column distributional clause is statistical and not claimed.'),
 })
 
